@@ -43,6 +43,18 @@ NEEDS = {
  "C21-2": "cancel() arrives while the cancelled handle is inside its outermost fixpoint query; the handle then makes a tracked request outside it",
  "C22-1": "tracked struct re-created in a later revision, panic in a tracked field's PartialEq, same request retried in the same revision",
  "C22-2": "function re-executes, creates fewer tracked structs than before, and its result's PartialEq panics during backdating; request repeated",
+ "C08-1": "interned slot reclaimed for a value with a different hash than the value it replaces (existing GC tests use a constant hash); the new value interned again before the key map resizes",
+ "C08-2": "Vec field interned through a slice; a vector and one of its prefixes with colliding hashes (same shard, same 7 tag bits) so that hashbrown calls eq",
+ "C18-1": "cycle member read only the head's initial value; the cycle through it disappears in a later iteration (short-circuit), the head completes cycle-free; another thread (or a later request) enters at that member",
+ "C18-2": "second revision; query x read participant d outside the cycle in revision 1; the cycle re-runs; x is validated while d's lock is transferred",
+ "C23-1": "query with cycle recovery whose memo has no value and is from an older revision (head panicked earlier, or lru-evicted) executes again and re-enters its own cycle",
+ "C23-2": "origin with extra data (accumulated values / tracked-struct ids / cycle heads) and zero retained edges: every fixpoint-initial memo, functions that read no tracked input",
+ "C24-1": "a handle dropped with a partially filled page; two live handles then take their first page for that ingredient concurrently",
+ "C24-2": "Storage::into_zalsa_handle on a storage with a partially filled page, later two handles built with StorageHandle::into_storage allocate concurrently",
+ "C25-1": "database with more than 4096 ingredients (packed edge to ingredient index 4096..8191)",
+ "C25-2": "wide-layout DerivedUntracked origin (query with an output edge, e.g. specify) asked is_derived_untracked: fixpoint head that reads untracked state only in an early iteration",
+ "C26-1": "two memos of one persisted function sharing a non-persisted query reached through another non-persisted query; write to the input read only there after the restore",
+ "C26-2": "persisted reclaimable interned value whose slot was reused before serialization (generation > 0) and is reused again after the restore",
  "C13-2": "two cycle_result cycles sharing a node, entered through the outer one; every member read; a write breaks only the outer cycle; request into the inner cycle",
 }
 res = {}
